@@ -130,9 +130,12 @@ class Iterate:
 
         at_lower = self.active_set.at_lower
         at_upper = self.active_set.at_upper
+        at_both = self.active_set.at_both
 
         infeas_opt_res[at_lower] = np.minimum(infeas_opt_res[at_lower], 0.0)
         infeas_opt_res[at_upper] = np.maximum(infeas_opt_res[at_upper], 0.0)
+        # variables at both bounds (fixed) cannot move in either direction
+        infeas_opt_res[at_both] = 0.0
 
         return bool(np.linalg.norm(infeas_opt_res, ord=np.inf) <= local_infeas_tol)
 
